@@ -1,7 +1,7 @@
 PROP = dict(
     properties="Properties/C07.v",
     harness_mods=["Harness/C07.v"],
-    gen=[["gen-fee-table", "-out", "coq/gen"]],
+    gen=[["gen-fee-table", "-out", "coq/gen"], ["gen-vm-tables", "-out", "coq/gen"], ["gen-auth-tables", "-out", "coq/gen"]],
     runs=[dict(cmd="c07", quick=300, thorough=6000)],
     trusted_base=[
         "translator harness/c07gen.go (prints fee.Opcode coefficients, fee.ECDSAVerifyPrice, vm.ExecFeeFactorMultiplier, emit.Int opcodes, transaction limits into coq/gen/FeeTable.v on every run)",
